@@ -370,6 +370,17 @@ func (s *Store) instantiate(
 ) (m *ModuleInstance, err error) {
 	m = &ModuleInstance{ModuleName: name, TypeIDs: typeIDs, Sys: sysCtx, s: s, Source: module}
 
+	// A failed instantiation gives back its use of the (own or imported) memory, unless functions of the
+	// half-built instance may have been left behind (by an active element segment or the start function),
+	// where they stay callable.
+	inst, mayBeReferenced := m, false
+	defer func() {
+		if mem := inst.MemoryInstance; err != nil && mem != nil && !mayBeReferenced && !inst.memoryReleased {
+			inst.memoryReleased = true
+			mem.releaseUser()
+		}
+	}()
+
 	m.Tables = make([]*TableInstance, int(module.ImportTableCount)+len(module.TableSection))
 	m.Globals = make([]*GlobalInstance, int(module.ImportGlobalCount)+len(module.GlobalSection))
 	m.Engine, err = s.Engine.NewModuleEngine(module, m)
@@ -421,6 +432,9 @@ func (s *Store) instantiate(
 	// Now all the validation passes, we are safe to mutate table and memory instances (possibly imported ones).
 	// Element segments are applied before data segments as in the specification's instantiation order, so
 	// that their side effects persist when a later data segment is out of bounds.
+	for i := range module.ElementSection {
+		mayBeReferenced = mayBeReferenced || module.ElementSection[i].Mode == ElementModeActive
+	}
 	m.applyElements(module.ElementSection)
 
 	if err = m.applyData(module.DataSection); err != nil {
@@ -429,6 +443,7 @@ func (s *Store) instantiate(
 
 	// Execute the start function.
 	if module.StartSection != nil {
+		mayBeReferenced = true // it may store references to its functions anywhere.
 		funcIdx := *module.StartSection
 		ce := m.Engine.NewFunction(funcIdx)
 		_, err = ce.Call(ctx)
